@@ -57,7 +57,8 @@ def gen_cases(tier, seed):
         cases.append({"id": cid, "sig": ["stored", repr(came), enc, irt, scd, unsol], "irt": irt, "scd": scd, "dest": "own", "aud": "one-naming", "rec": "own",
                       "unsol": unsol, "conv": 0, "pat": 0, "signed": 0, "arrive": "post", "eps": "both", "came": came, "enc": enc})
     # the binding the response arrives over and the endpoints the SP has for it
-    for arrive, eps in (("redirect", "both"), ("redirect", "post-only"), ("post", "post-only")):
+    # (artifact: the message an artifact was resolved to, handed in under the artifact binding - a browser binding for which this SP has no endpoint)
+    for arrive, eps in (("redirect", "both"), ("redirect", "post-only"), ("post", "post-only"), ("artifact", "both")):
         for irt, dest, aud, unsol, pat in itertools.product(("match", "unknown"), DEST, ("one-naming", "one-foreign"), (0, 1), (0, 1)):
             cid = "arrive:%s-eps:%s-irt:%s-dest:%s-aud:%s-u%d-p%d" % (arrive, eps, irt, dest, aud, unsol, pat)
             cases.append({"id": cid, "sig": [arrive, eps, irt, dest, aud, unsol, pat], "irt": irt, "scd": "match", "dest": dest, "aud": aud, "rec": "own",
@@ -173,7 +174,8 @@ def _deliver(sp, xml, outstanding, binding, **kw):
         except Exception as exc:
             return None, exc
     data = xml.encode("utf-8")
-    enc = base64.b64encode(data).decode() if binding == BINDING_HTTP_POST else base64.b64encode(zlib.compress(data)[2:-4]).decode()
+    from saml2_tophat import BINDING_HTTP_ARTIFACT as _ART
+    enc = base64.b64encode(data).decode() if binding in (BINDING_HTTP_POST, _ART) else base64.b64encode(zlib.compress(data)[2:-4]).decode()
     try:
         return sp.parse_authn_request_response(enc, binding, outstanding, **kw), None
     except Exception as exc:
@@ -184,8 +186,9 @@ def run_case(case, ctx):
     from saml2_tophat import BINDING_HTTP_POST, BINDING_HTTP_REDIRECT
     arrive, eps = case.get("arrive", "post"), case.get("eps", "both")
     sp, idp = _pair(ctx, case["unsol"], case["pat"], case["signed"], eps, case.get("skew", 0))
-    binding = BINDING_HTTP_POST if arrive == "post" else (BINDING_HTTP_REDIRECT if arrive == "redirect" else "ecp")
-    own_for_binding = ([fed.ACS_POST] if arrive in ("post", "ecp") else ([fed.ACS_REDIRECT] if eps == "both" else []))
+    from saml2_tophat import BINDING_HTTP_ARTIFACT
+    binding = {"post": BINDING_HTTP_POST, "redirect": BINDING_HTTP_REDIRECT, "artifact": BINDING_HTTP_ARTIFACT, "ecp": "ecp"}[arrive]
+    own_for_binding = ([fed.ACS_POST] if arrive in ("post", "ecp") else ([fed.ACS_REDIRECT] if (eps == "both" and arrive == "redirect") else []))
     own_acs = own_for_binding[0] if own_for_binding else fed.ACS_POST      # what an honest IdP would have addressed
     xml = fed.issue(idp, {"givenName": ["Ann"]}, in_response_to="id-req-1", destination=own_acs, sign_response=False)
     d = xk.Doc(xml)
